@@ -210,7 +210,13 @@ func closureInit(parentLocks map[ssa.Instruction]lockState, mc *ssa.MakeClosure)
 		switch x := r.(type) {
 		case *ssa.Defer:
 			if x.Call.Value == mc {
-				return parentLocks[x].clone()
+				// runs at exit: what is held at the registration point and still held at every return
+				// (a deferred Unlock registered earlier runs later; an explicit Unlock on the way does not)
+				st := parentLocks[x].clone()
+				for _, r := range returnsAfter(x) {
+					st = meetLocks(st, parentLocks[r])
+				}
+				return st
 			}
 		case *ssa.Call:
 			for _, a := range x.Call.Args {
@@ -313,10 +319,17 @@ func (c *Ctx) checkGuard(rule string, g guardSpec) {
 					break
 				}
 				mode := lockNone
-				if _, isDefer := r.Instr.(*ssa.Defer); isDefer {
-					mode = lockNone // runs at exit, after deferred unlocks registered later; be conservative
-				} else if lf := locks[r.In]; lf != nil {
+				if lf := locks[r.In]; lf != nil {
+					// a deferred helper runs at exit before the deferred unlocks registered earlier (LIFO), i.e. with
+					// the lockset of its registration point, exactly like a deferred closure (closureInit)
 					mode = lf[r.Instr][lockID]
+					if _, isDefer := r.Instr.(*ssa.Defer); isDefer {
+						for _, ret := range returnsAfter(r.Instr) {
+							if m := lf[ret][lockID]; m < mode {
+								mode = m
+							}
+						}
+					}
 				}
 				if mode < entry {
 					entry = mode
@@ -505,5 +518,26 @@ func guardedAccessesDeep(fn *ssa.Function, guarded map[*types.Var]string) []guar
 	for _, a := range fn.AnonFuncs {
 		out = append(out, guardedAccessesDeep(a, guarded)...)
 	}
+	return out
+}
+
+// returnsAfter lists the returns reachable from instruction in (those at which a defer registered by in runs).
+func returnsAfter(in ssa.Instruction) []*ssa.Return {
+	var out []*ssa.Return
+	seen := map[*ssa.BasicBlock]bool{}
+	var walk func(b *ssa.BasicBlock)
+	walk = func(b *ssa.BasicBlock) {
+		if seen[b] {
+			return
+		}
+		seen[b] = true
+		if r, ok := b.Instrs[len(b.Instrs)-1].(*ssa.Return); ok {
+			out = append(out, r)
+		}
+		for _, s := range b.Succs {
+			walk(s)
+		}
+	}
+	walk(in.Block())
 	return out
 }
